@@ -539,7 +539,7 @@ def SameErr {α β : Type} (a : Except SerErr α) (b : Except SerErr β) : Prop 
 
 theorem SameErr.map {α β α' β' : Type} {a : Except SerErr α} {b : Except SerErr β} (f : α → α') (g : β → β')
     (h : SameErr a b) : SameErr (a.map f) (b.map g) := by
-  cases a <;> cases b <;> simpa [SameErr, Except.map] using h
+  cases a <;> cases b <;> simp_all [SameErr, Except.map]
 
 theorem SameErr.cons {α β α' β' : Type} {mk : α → α'} {mk' : β → β'} {a : Except SerErr α} {b : Except SerErr β}
     {as : Except SerErr (List α')} {bs : Except SerErr (List β')} (h1 : SameErr a b) (h2 : SameErr as bs) :
